@@ -27,6 +27,12 @@ SHAPES = {
     "floats": ("c", "struct f1 { float f; int i; };\nstruct f2 { struct f1 in; double d[3]; };\ntypedef struct f2 f2_t;\nstruct f3 { f2_t t; };\n"),
     "ptrs": ("c", "struct p1 { int *p; };\nstruct p2 { struct p1 in; void (*cb)(int); };\n"),
     "bigarr": ("c", "struct b1 { int a[33]; };\nstruct b2 { int a[32]; };\nstruct b3 { struct b1 in; char c; };\nstruct b4 { float f[40]; };\n"),
+    "nested-arrays": ("c", "struct n1 { int rows[2][40]; };\ntypedef unsigned char block_t[48];\nstruct n2 { block_t b[3]; int small[2][3]; };\n"
+                           "struct cbs { void (*f)(int,int,int,int,int,int,int,int,int,int,int,int,int); };\nstruct n3 { struct cbs arr[2]; };\nstruct n4 { float m[3][33]; };\n"),
+    "fn-typedefs": ("c", "typedef void big_fn(int,int,int,int,int,int,int,int,int,int,int,int,int);\ntypedef int small_fn(int);\n"
+                         "struct via_td { big_fn *cb; };\nstruct small_td { small_fn *cb; int x; };\nstruct inline_fp { void (*cb)(int,int,int,int,int,int,int,int,int,int,int,int,int); };\n"
+                         "typedef big_fn *big_fn_ptr;\nstruct via_ptr_td { big_fn_ptr p; big_fn_ptr arr[2]; };\n"),
+    "two-units": ("c", "struct tu { unsigned a:7; char sep; unsigned long long b0:64; unsigned long long b1:64; unsigned long long b2:64; unsigned long long b3:64; unsigned long long b4:8; };\n"),
     "incomplete": ("c", "struct inc { int n; char tail[]; };\nstruct zero { int n; int z[0]; };\n"),
     "fnptr13": ("c", "typedef void (*big_fn)(int,int,int,int,int,int,int,int,int,int,int,int,int);\nstruct fp { big_fn f; };\nstruct fp12 { void (*g)(int,int,int,int,int,int,int,int,int,int,int,int); };\n"),
     "unions": ("c", "union u1 { int i; float f; };\nstruct hu { union u1 u; int tag; };\nunion u2 { struct hu h; char c[64]; };\n"),
